@@ -217,7 +217,22 @@ func c05triples(thorough bool) (triples []c05triple, bValues int) {
 		bAlpha = []*E{nil, file(1, false), file(2, false), dir("x", file(1, false)), dir()}
 	}
 	seen := map[string]bool{}
-	for _, u := range [][]*E{c05universe(false, nil), c05universe(true, bAlpha)} {
+	universes := [][]*E{c05universe(false, nil), c05universe(true, bAlpha)}
+	if thorough {
+		// Third universe (last in the order): three flat slots a, b, c in
+		// {nil, F1, F2} - plans with up to three requested changes.
+		flat := []*E{nil, file(1, false), file(2, false)}
+		u3 := []*E{nil}
+		for _, a := range flat {
+			for _, b := range flat {
+				for _, c := range flat {
+					u3 = append(u3, dir("a", a, "b", b, "c", c))
+				}
+			}
+		}
+		universes = append(universes, u3)
+	}
+	for _, u := range universes {
 		for _, a := range u {
 			for _, x := range u {
 				for _, y := range u {
@@ -233,7 +248,14 @@ func c05triples(thorough bool) (triples []c05triple, bValues int) {
 	return triples, len(bAlpha)
 }
 
-const c05maxChanges = 2
+// c05maxChanges bounds the number of requested changes per plan (the universes
+// of the quick tier never produce more than two).
+func c05maxChanges(thorough bool) int {
+	if thorough {
+		return 3
+	}
+	return 2
+}
 
 // c05worker explores the triples i with i mod Shards == Shard, one bubble after
 // the other.
@@ -246,6 +268,9 @@ func c05worker(t *testing.T, job *wJob, out *wOutput) {
 		if res.infra != "" {
 			out.fail("%s: %s", c.key(), res.infra)
 			return nil
+		}
+		if res.obs != nil {
+			out.Extra["requests_not_matching_disk"] += int64(res.obs.Stale)
 		}
 		nontrivial := (c.Fault != "" || len(c.Outcomes) > 0) && res.class != "no-transition" && res.class != "halted-for-safety"
 		if res.verdict != "" {
@@ -288,7 +313,7 @@ func c05worker(t *testing.T, job *wJob, out *wOutput) {
 			if len(reqs) == 0 {
 				continue
 			}
-			if len(reqs) > c05maxChanges {
+			if len(reqs) > c05maxChanges(job.Thorough) {
 				out.Extra["skipped_plans"]++
 				continue
 			}
@@ -379,11 +404,11 @@ func TestC05Controller(t *testing.T) {
 		return
 	}
 	triples, bValues := c05triples(vr.Thorough())
-	r.Rule(fmt.Sprintf("every (last-synchronized tree, alpha tree, beta tree) with root in {nil, D{a}} (one slot) and {nil, D{a,b}} (two slots), slot a in {nil,F1,F2,D{x:F1},D{}}, slot b in %d values, x 4 synchronization modes: the REAL Manager/controller reaches the ancestor by a first cycle, then runs ONE cycle against scripted in-memory endpoints; for each plan with 1..%d requested changes EVERY vector assigning each change one outcome from {applied exactly, refused (Old), removed-but-not-created (nil), every prefix-closed sub-tree of Old or New} x {no endpoint failure, alpha's Transition returns an error, beta's does, the cycle is cancelled (session paused) while the endpoints are in Transition} is executed; the saved archive is read back from the data directory; each (triple, mode, vector, fault) is executed once; non-trivial = some change was not applied exactly or an endpoint failed / was cancelled", bValues, c05maxChanges))
+	r.Rule(fmt.Sprintf("every (last-synchronized tree, alpha tree, beta tree) with root in {nil, D{a}} (one slot) and {nil, D{a,b}} (two slots), slot a in {nil,F1,F2,D{x:F1},D{}}, slot b in %d values (thorough also: three flat slots a,b,c in {nil,F1,F2}), x 4 synchronization modes: the REAL Manager/controller reaches the ancestor by a first cycle, then runs ONE cycle against scripted in-memory endpoints; for each plan with 1..%d requested changes EVERY vector assigning each change one outcome from {applied exactly, refused (Old), removed-but-not-created (nil), every prefix-closed sub-tree of Old or New} x {no endpoint failure, alpha's Transition returns an error, beta's does, the cycle is cancelled (session paused) while the endpoints are in Transition} is executed; the saved archive is read back from the data directory; each (triple, mode, vector, fault) is executed once; non-trivial = some change was not applied exactly or an endpoint failed / was cancelled", bValues, c05maxChanges(vr.Thorough())))
 	r.Assume("endpoints report sub-trees of what the plan named (what Transition can report); a failing endpoint returns the planned entries next to its error and leaves its disk unchanged",
 		"staging is a no-op (the scripted endpoints declare every file already staged); root deletion / type change cycles halt before any transition and are counted as trivial",
 		"plans with more requested changes than the bound are skipped and counted (skipped_plans)")
-	deadline := vr.Deadline(45*time.Second, 8*time.Minute)
+	deadline := scaledDeadline(45*time.Second, 8*time.Minute)
 	outs := runWorkers(t, "c05", vr.Workers(), deadline, nil)
 	extra := mergeWorkers(r, outs, func(v wViolation) bool {
 		var c c05case
@@ -394,8 +419,9 @@ func TestC05Controller(t *testing.T) {
 	r.Set("triples", len(triples))
 	r.Set("controller_cycles_executed", extra["executed"]*2)
 	r.Set("skipped_plans", extra["skipped_plans"])
+	r.Set("requests_not_matching_disk", extra["requests_not_matching_disk"])
 	if n := extra["capped_triples"]; n > 0 {
-		r.NotExhaustive(fmt.Sprintf("wall budget reached: %d of %d triples (the last in each worker's enumeration order, i.e. of the two-slot universe) were not run", n, len(triples)))
+		r.NotExhaustive(fmt.Sprintf("wall budget reached: %d of %d triples (the last in each worker's enumeration order, i.e. of the largest universe) were not run", n, len(triples)))
 	}
 	r.Sample(c05case{Ancestor: "D{a:D{x:F1}}", Alpha: "D{a:F2}", Beta: "D{a:D{x:F1}}", Mode: "two-way-safe", Outcomes: map[string]string{"beta|a": "D{}"}})
 }
